@@ -58,9 +58,9 @@ Proof.
   - inversion H; subst; lia.
   - destruct (negb (is_nil (s_pdisc s))); [eapply start_disc_w|eapply maybe_send_w]; eauto.
 Qed.
-Lemma run_callback_w rep parts s ag s' ag' :
+Lemma run_callback_w rep parts fr s ag s' ag' :
   s_queue s <> [] ->
-  run_callback rep parts s ag = (s', ag') -> (measure s' ag' + 2 <= measure s ag)%nat.
+  run_callback rep parts fr s ag = (s', ag') -> (measure s' ag' + 2 <= measure s ag)%nat.
 Proof.
   unfold run_callback, measure, wst. intros Hq H.
   destruct (s_queue s) as [|[id cb] q] eqn:E; [congruence|].
@@ -73,8 +73,8 @@ Proof.
   - eapply maybe_send_w; eauto.
   - inversion H; subst; lia.
 Qed.
-Lemma handle_w rep s ag s' ag' :
-  handle rep s ag = (s', ag') -> (measure s' ag' <= measure s ag)%nat.
+Lemma handle_w from rep s ag s' ag' :
+  handle from rep s ag = (s', ag') -> (measure s' ag' <= measure s ag)%nat.
 Proof.
   unfold handle. intros H.
   destruct (is_nil (s_queue (set_s_pending false s))) eqn:Eq.
@@ -99,7 +99,7 @@ Lemma step_decreases s f ag s' ag' :
 Proof.
   destruct f as [o| | |]; cbn [step]; intros H.
   - destruct o as [cb|full cb| | |r|]; cbn [do_op] in H.
-    + destruct (s_max (set_h_next (h_next s + 1) s) <=? len (s_queue (set_h_next (h_next s + 1) s))).
+    + destruct (s_max s <=? len (s_queue s)).
       * inversion H; subst. unfold measure, wst; cbn. rewrite wag_app, wag_map_fop.
         fold (wops cb). lia.
       * apply take_next_w in H. unfold measure, wst in *; cbn in *. rewrite wq_app in H. cbn in H.
